@@ -116,7 +116,7 @@ def val_error_multiple_unique(tag_namespace):
 
 @hed_tag_error(ValidationErrors.TAG_NAMESPACE_PREFIX_INVALID)
 def val_error_prefix_invalid(tag, tag_namespace):
-    return f"Prefixes can only contain alpha characters. - '{tag_namespace}'"
+    return f"Prefixes can only contain alpha characters. - '{tag_namespace}' in '{tag}'"
 
 
 @hed_tag_error(ValidationErrors.TAG_EXTENSION_INVALID)
